@@ -709,10 +709,11 @@ Section WithOracle.
 End WithOracle.
 
 (* non-vacuity of pt_dom and of the guard: the point (139.75, 0, -75.5 m) with an oracle whose Mercator float is 1 (the equator) *)
-Example pt_dom_example :
-  exists (t c l : pfloat -> pfloat) p, pt_dom t c l p /\ ~ alt_vanishes (palt p) 0.
+Definition example_point : point := {| plon := 139.75%float; plat := 0%float; palt := (-75.5)%float |}.
+Lemma pt_dom_example_concrete :
+  pt_dom (fun _ => 0%float) (fun _ => 1%float) (fun _ => 0%float) example_point /\ ~ alt_vanishes (palt example_point) 0.
 Proof.
-  exists (fun _ => 0%float), (fun _ => 1%float), (fun _ => 0%float), {| plon := 139.75%float; plat := 0%float; palt := (-75.5)%float |}.
+  unfold example_point.
   assert (VL : fval 139.75%float = (559 / 4)%R /\ ffin 139.75%float = true).
   { rewrite fval_SF, ffin_SF. replace (Prim2SF 139.75%float) with (S754_finite false 4917015999414272 (-45)) by (vm_compute; reflexivity).
     split; [|reflexivity]. cbn [SF2R cond_Zopp]. unfold F2R. cbn [Fnum Fexp]. simpl bpow. change (Z.pow_pos 2 45) with 35184372088832. lra. }
@@ -730,6 +731,9 @@ Proof.
     assert (B : (bpow radix2 (-997 - 0) < 1)%R) by (change 1%R with (bpow radix2 0); apply bpow_lt; lia).
     rewrite Rabs_left in C by lra. lra.
 Qed.
+Example pt_dom_example :
+  exists (t c l : pfloat -> pfloat) p, pt_dom t c l p /\ ~ alt_vanishes (palt p) 0.
+Proof. exists (fun _ => 0%float), (fun _ => 1%float), (fun _ => 0%float), example_point. exact pt_dom_example_concrete. Qed.
 
 (* ================================================================================================================== *)
 (* 5. Boolean checkers run by DC09.v on the implementation's observed outputs, with their meaning                      *)
